@@ -332,13 +332,48 @@ Record agroup := mkA {
   a_rtype : N; a_nrr : N; a_owner : name;
   a_cname : option name;  (* Some target iff rr_set[0] is a CNAME *)
   a_state : vstate;
-  a_wild : bool           (* closest_encloser().is_some() *)
+  a_wild : bool;          (* closest_encloser().is_some() *)
+  a_dname : option name;  (* Some target iff rr_set[0] is a DNAME *)
+  a_signed : bool         (* sig_set is not empty *)
 }.
 
-(* do_cname_dname restricted to CNAME steps on non-wildcard groups (DNAME and
-   wildcard CNAME steps need the authority section and are not modelled: a
-   group with a_wild or rtype DNAME makes the model answer None = "not covered") *)
-Definition rt_is_dname (g : agroup) : bool := a_rtype g =? rt_DNAME.
+(* utilities.rs map_dname(owner of the DNAME, DNAME target, name): the labels that
+   name has more than the owner, in front of the target; fails when the result
+   exceeds 255 octets (NameBuilder::append_label / append_origin) *)
+Definition map_dname (owner dtarget nm : name) : option name :=
+  let r := firstn (length nm - length owner) nm ++ dtarget in
+  if Nat.leb (wire_len r) 254 then Some r else None.
+
+(* GroupSet::moved_to_dname for an unsigned single CNAME (owner, target): the first
+   DNAME record above the owner decides: its expansion must exist and equal the target *)
+Fixpoint moved_to_dname (cowner ctarget : name) (gs : list agroup) : bool :=
+  match gs with
+  | [] => false
+  | g :: r =>
+      match a_dname g with
+      | Some dt =>
+          if negb (a_rtype g =? rt_DNAME) then moved_to_dname cowner ctarget r
+          else if negb (ends_with cowner (a_owner g)) then moved_to_dname cowner ctarget r
+          else if name_eqb cowner (a_owner g) then moved_to_dname cowner ctarget r
+          else match map_dname (a_owner g) dt cowner with
+               | None => false
+               | Some res => if name_eqb ctarget res then true else moved_to_dname cowner ctarget r
+               end
+      | None => moved_to_dname cowner ctarget r
+      end
+  end.
+
+(* GroupSet::move_redundant_cnames: unsigned single-record CNAME groups that are the
+   synthesis of a DNAME in the set are taken out (they travel with the DNAME group) *)
+Definition is_courtesy_cname (all : list agroup) (g : agroup) : bool :=
+  (a_rtype g =? rt_CNAME) && (a_nrr g =? 1) && negb (a_signed g) &&
+  match a_cname g with Some t => moved_to_dname (a_owner g) t all | None => false end.
+Definition move_redundant_cnames (gs : list agroup) : list agroup :=
+  filter (fun g => negb (is_courtesy_cname gs g)) gs.
+
+(* do_cname_dname: CNAME steps on non-wildcard groups and DNAME steps; a CNAME
+   expanded from a wildcard needs the authority section and is not modelled
+   (the model then answers None = "not covered") *)
 Fixpoint cname_find (nm : name) (qtype : N) (gs : list agroup) : option (option (Names.name * vstate)) :=
   match gs with
   | [] => Some None
@@ -351,7 +386,18 @@ Fixpoint cname_find (nm : name) (qtype : N) (gs : list agroup) : option (option 
                if negb (name_eqb (a_owner g) nm) then cname_find nm qtype r
                else if a_wild g then None
                else Some (Some (tgt, a_state g))
-           | None => if rt_is_dname g then None else cname_find nm qtype r
+           | None =>
+               match a_dname g with
+               | Some dt =>
+                   if negb (ends_with nm (a_owner g)) then cname_find nm qtype r
+                   else if name_eqb (a_owner g) nm then cname_find nm qtype r
+                   else if a_wild g then Some (Some (a_owner g, Bogus))        (* DNAME from wildcard *)
+                   else match map_dname (a_owner g) dt nm with
+                        | None => Some (Some (a_owner g, Bogus))               (* failed to expand *)
+                        | Some res => Some (Some (res, a_state g))
+                        end
+               | None => cname_find nm qtype r
+               end
            end
   end.
 Fixpoint cname_chase (fuel : nat) (count maxc : N) (nm : name) (qtype : N) (gs : list agroup)
@@ -364,7 +410,8 @@ Fixpoint cname_chase (fuel : nat) (count maxc : N) (nm : name) (qtype : N) (gs :
       | Some None => Ok (Some (nm, maybe))
       | Some (Some (tgt, st)) =>
           let maybe' := map_maybe_secure st maybe in
-          if maxc <? count + 1 then Ok (Some (tgt, Bogus))
+          if vstate_eqb st Bogus then Ok (Some (tgt, Bogus))
+          else if maxc <? count + 1 then Ok (Some (tgt, Bogus))
           else cname_chase fuel' (count + 1) maxc tgt qtype gs maybe'
       end
   end.
@@ -436,7 +483,7 @@ Definition negative_msg_state (nx : bool) (target : name) (qtype : N) (signer : 
    wildcard / DNAME groups in the answer: when nothing answers the (chased)
    question the negative path finds no SOA and the verdict is bogus *)
 Definition answer_msg_state (qname : name) (qtype : N) (maxc : N) (gs : list agroup) : outcome vstate :=
-  do r <- positive_answer_state qname qtype maxc gs;
+  do r <- positive_answer_state qname qtype maxc (move_redundant_cnames gs);
   match r with
   | Some s => Ok s
   | None => Ok Bogus
